@@ -211,6 +211,11 @@ def run(ck):
                 meaning='the period starting in year Y-3 (hence every earlier one, starts being increasing) is closed by an end instant <= t under both readings')
         A.claim(f'L3:{tagn}:yearly_instants_increase', AND(inyr, gw, OR(CMP('<', ARI('-', S[1], S[0]), 364 * DAY), CMP('<', ARI('-', Ee[1], Ee[0]), 364 * DAY))), get=allv, cases=cases, replay=lambda m: None,
                 meaning='start(y+1)-start(y) >= 364 days (same for end), for the symbolic year Y')
+        j0 = ARI('*', cal.J(Y), DAY)
+        k1 = lambda inst, dt_: AND(CMP('<=', ARI('+', j0, dt_), inst), CMP('<=', inst, ADD(j0, 365 * DAY, dt_)))
+        k2 = lambda a, b: AND(CMP('<=', 364 * DAY, ARI('-', b, a)), CMP('<=', ARI('-', b, a), 371 * DAY))
+        A.claim(f'L3:{tagn}:contracts_K1_K2_of_rule_day_instants', AND(inyr, gw, NOT(AND(k1(S[0], sutc), k1(Ee[0], eutc), k2(S[0], S[1]), k2(Ee[0], Ee[1])))), get=allv, cases=cases, replay=lambda m: None,
+                meaning='K1: a rule-day instant of year Y lies within [Jan 1 Y + dt, Jan 1 Y + 365 d + dt]; K2: consecutive yearly instants are 364..371 days apart (contracts assumed by the abstract rule-zone search harnesses c05/c06_rule_abstract)')
         A.claim(f'L3:{tagn}:vac_dst', AND(base, NOT(role), rdA), expect='sat', kind='vacuity')
         A.claim(f'L3:{tagn}:vac_std', AND(base, NOT(role), NOT(rdA)), expect='sat', kind='vacuity')
         A.claim(f'L3:{tagn}:vac_south', AND(base, NOT(role), south, NOT(north), rdA), expect='sat', kind='vacuity')
